@@ -60,7 +60,11 @@ def gen_case(r, k, nmol=None, nt=None, tensor=None):
         tensor = nmol >= 2 and r.random() < 0.25
     perm = list(range(nmol))
     r.shuffle(perm)
-    return {"kind": "spec", "nmol": nmol, "nt": nt, "dt": dt, "rwa": e0, "energies": energies, "dipoles": dipoles,
+    if nmol >= 2 and perm == sorted(perm):
+        perm = perm[1:] + perm[:1]                      # a genuine relabelling
+    # two-exciton states included in the aggregate (build(mult=2)): linear absorption must not change
+    mult = 2 if (nmol >= 2 and not tensor and r.random() < 0.45) else 1
+    return {"kind": "spec", "mult": mult, "nmol": nmol, "nt": nt, "dt": dt, "rwa": e0, "energies": energies, "dipoles": dipoles,
             "geometry": geometry, "positions": positions, "couplings": couplings, "reorgs": reorgs, "cortime": cortime,
             "T": 300.0, "tensor": bool(tensor), "scale": r.choice([2.0, 0.5, 3.0, -1.5]), "perm": perm,
             "rot": [r.randint(1, 10 ** 6), r.choice([1, -1])]}
@@ -133,7 +137,7 @@ def build(c, dip_scale=1.0, rot=None, perm=None):
                 i, j = [int(x) for x in key.split(",")]
                 # couplings belong to the molecules, not to their position in the list
                 ag.set_resonance_coupling(order.index(i), order.index(j), val)
-    ag.build()
+    ag.build(mult=c.get("mult", 1))
     return time, ag, cfs
 
 
@@ -164,6 +168,7 @@ def reference(c, time, system, cfs, H0, D0, rwa, omegas):
     w[0] = 1.0
     w[-1] = 1.0
     out = numpy.zeros(len(omegas))
+    lines = []
     ph = numpy.exp(1j * numpy.outer(omegas, t))
     if c["nmol"] == 1:
         dvec = system.dmoments[0, 1, :]
@@ -171,16 +176,23 @@ def reference(c, time, system, cfs, H0, D0, rwa, omegas):
         gam = -1.0 / system.get_electronic_natural_lifetime(1)
         om = system.elenergies[1] - system.elenergies[0] - rwa
         at = numpy.exp(-_c2g(time, cfs[0]) - 1j * om * t) * numpy.exp(gam * t)
-        return dd * numpy.real(ph @ (w * at)) * time.step
-    E, S = numpy.linalg.eigh(H0)
-    n = H0.shape[0]
+        one = dd * numpy.real(ph @ (w * at)) * time.step
+        return one, [(float(om + rwa), dd, one)]
+    # only transitions from the ground state to the one-exciton band absorb: the reference is built from the
+    # one-exciton block alone, whatever else the aggregate's state space contains (mult = 2)
+    N = c["nmol"]
+    E1, S1 = numpy.linalg.eigh(H0[:N + 1, :N + 1])
+    E, S = E1, S1
+    n = N + 1
     for a in range(1, n):
         mu = sum(S[j, a] * D0[0, j, :] for j in range(n))
         dd = float(mu.dot(mu))
         ct = sum((S[k + 1, a] ** 4) * cfs[k] for k in range(n - 1))
         at = numpy.exp(-_c2g(time, ct) - 1j * (E[a] - E[0] - rwa) * t)
-        out += dd * numpy.real(ph @ (w * at)) * time.step
-    return out
+        one = dd * numpy.real(ph @ (w * at)) * time.step
+        lines.append((float(E[a] - E[0]), dd, one))
+        out += one
+    return out, lines
 
 
 def qrow(v):
@@ -190,8 +202,8 @@ def qrow(v):
 def run_case(c, chk, spec_items, spec_meta, grid_items, grid_meta):
     import numpy
     import quantarhei as qr
-    tag = "%s:%s:%s" % ("molecule" if c["nmol"] == 1 else "aggregate%d" % c["nmol"], "tensor" if c["tensor"] else "plain",
-                        "even" if c["nt"] % 2 == 0 else "odd")
+    tag = "%s:%s:%s" % ("molecule" if c["nmol"] == 1 else "aggregate%d%s" % (c["nmol"], "" if c.get("mult", 1) == 1 else "_mult2"),
+                        "tensor" if c["tensor"] else "plain", "even" if c["nt"] % 2 == 0 else "odd")
     chk.count("spec:" + tag)
     time, system, cfs = build(c)
     agg = c["nmol"] > 1
@@ -251,12 +263,24 @@ def run_case(c, chk, spec_items, spec_meta, grid_items, grid_meta):
         chk.violation("shape:" + tag, "data has %d points, axis %d, time axis %d" % (len(data), len(axis), nt), "monitor", c)
         return False
     if not c["tensor"]:
-        ref_grid = reference(c, time, system, cfs, H0, D0, rwa, grid)
+        ref_grid, ref_lines = reference(c, time, system, cfs, H0, D0, rwa, grid)
+        # every transition from the ground state to the one-exciton band shows up at its transition energy
+        ddmax = max(l[1] for l in ref_lines)
+        for (ea, dda, one) in ref_lines:
+            if dda > 1e-3 * ddmax:
+                ia = int(numpy.argmax(one))
+                if data[ia] < 0.5 * one[ia]:
+                    chk.violation("transitions:missing_line:" + tag, "no line at the transition energy %.6g (dipole strength %.4g): data %.4g where "
+                                  "the line alone gives %.4g (grid index %d)" % (ea, dda, data[ia], one[ia], ia), "monitor", c)
+        nband = c["nmol"]
+        if len(calls) < nband:
+            chk.violation("transitions:missing_line:" + tag, "%d transitions to the one-exciton band, only %d were transformed"
+                          % (nband, len(calls)), "monitor", c)
         err = float(numpy.max(numpy.abs(ref_grid - data)))
         if err > 1e-9 * scale:
             chk.violation("fourier_integral:transform_grid:" + tag, "data differ from the direct Fourier integral on the grid of the "
                           "transform by %g (max %g)" % (err, scale), "monitor", c)
-        ref_axis = reference(c, time, system, cfs, H0, D0, rwa, axis - rwa)
+        ref_axis, _l = reference(c, time, system, cfs, H0, D0, rwa, axis - rwa)
         err = float(numpy.max(numpy.abs(ref_axis - data)))
         if err > 1e-6 * scale:
             i_d, i_r = int(numpy.argmax(data)), int(numpy.argmax(ref_axis))
@@ -294,20 +318,23 @@ def run_case(c, chk, spec_items, spec_meta, grid_items, grid_meta):
         if abs(total / want - 1.0) > 2e-3:
             chk.violation("symmetry:sum_rule:" + tag, "sum of the raw spectrum over the window is %g, (2Nt-2) dt sum|d|^2 = %g" % (total, want), "monitor", c)
 
-    # ---- correspondence literals
-    n = H0.shape[0]
+    # ---- correspondence literals: the model's line list is the one-exciton band (states 1..N of the one-exciton block);
+    # states above it (mult = 2) carry no dipole strength from the ground state and their lines are zero
+    n1 = c["nmol"] + 1
     if agg:
-        E, S = numpy.linalg.eigh(H0)
+        E, S = numpy.linalg.eigh(H0[:n1, :n1])
     else:
         S = numpy.eye(2)
-    if len(calls) == n - 1 and all(len(o) == 2 * nt - 2 for (_a, o) in calls) and not c["tensor"]:
-        dl = [D0[0, j, :] for j in range(n)]
-        spec_items.append("(%d%%nat, %s, %d%%nat, %s, %s, %s, %s, %s)" % (
-            nt, cm.qlit(dt), n, cm.clist([qrow(row) for row in S]), cm.clist([qrow(row) for row in dl]),
-            cm.clist([qrow(o) for (_a, o) in calls]), qrow(data), cm.qlit(1e-10 * scale)))
-        spec_meta.append(c)
-    elif not c["tensor"]:
-        chk.violation("correspondence:hfft_calls", "%d hfft calls for %d transitions" % (len(calls), n - 1), "correspondence", c, found_input=False)
+    if not c["tensor"]:
+        if len(calls) >= n1 - 1 and all(len(o) == 2 * nt - 2 for (_a, o) in calls):
+            dl = [D0[0, j, :] for j in range(n1)]
+            spec_items.append("(%d%%nat, %s, %d%%nat, %s, %s, %s, %s, %s)" % (
+                nt, cm.qlit(dt), n1, cm.clist([qrow(row) for row in S]), cm.clist([qrow(row) for row in dl]),
+                cm.clist([qrow(o) for (_a, o) in calls[:n1 - 1]]), qrow(data), cm.qlit(1e-10 * scale)))
+            spec_meta.append(c)
+        else:
+            chk.violation("correspondence:hfft_calls", "%d hfft calls for %d transitions to the one-exciton band" % (len(calls), n1 - 1),
+                          "correspondence", c, found_input=False)
     grid_items.append("(%s, %d%%nat, %s, %s, %s, %s)" % (cm.qlit(2.0 * numpy.pi), nt, cm.qlit(dt), cm.qlit(rwa), qrow(axis),
                                                       cm.qlit(1e-12 * (abs(rwa) + numpy.pi / dt))))
     grid_meta.append(c)
@@ -369,22 +396,29 @@ def run(chk, cases):
 
 
 def corpus():
-    base = {"kind": "spec", "nmol": 1, "nt": 200, "dt": 2.0, "rwa": 12000.0, "energies": [12000.0], "dipoles": [[0, 1, 0]],
+    base = {"kind": "spec", "mult": 1, "nmol": 1, "nt": 200, "dt": 2.0, "rwa": 12000.0, "energies": [12000.0], "dipoles": [[0, 1, 0]],
             "geometry": False, "positions": [[0.0, 0.0, 0.0]], "couplings": {}, "reorgs": [30.0], "cortime": 100.0, "T": 300.0,
             "tensor": False, "scale": 2.0, "perm": [0], "rot": [7, 1]}
-    dimer = {"kind": "spec", "nmol": 2, "nt": 201, "dt": 2.0, "rwa": 12000.0, "energies": [12100.0, 12000.0],
+    dimer = {"kind": "spec", "mult": 1, "nmol": 2, "nt": 201, "dt": 2.0, "rwa": 12000.0, "energies": [12100.0, 12000.0],
              "dipoles": [[0, 3, 0], [0, 1, 1]], "geometry": False, "positions": [[0.0, 0.0, 0.0], [5.0, 0.0, 0.0]],
              "couplings": {"0,1": 100.0}, "reorgs": [30.0, 30.0], "cortime": 100.0, "T": 300.0, "tensor": False, "scale": 3.0,
              "perm": [1, 0], "rot": [11, -1]}
     dimer_t = dict(dimer)
     dimer_t.update({"tensor": True, "nt": 200})
-    return [base, dimer, dimer_t]
+    dimer2 = dict(dimer)
+    dimer2.update({"mult": 2, "nt": 200})
+    trimer2 = {"kind": "spec", "mult": 2, "nmol": 3, "nt": 256, "dt": 2.0, "rwa": 12000.0, "energies": [12200.0, 12000.0, 11900.0],
+               "dipoles": [[1, 2, 0], [0, 1, 1], [2, 0, -1]], "geometry": False,
+               "positions": [[0.0, 0.0, 0.0], [8.0, 1.0, 0.0], [16.0, 0.0, 2.0]],
+               "couplings": {"0,1": 100.0, "0,2": -50.0, "1,2": 150.0}, "reorgs": [30.0, 30.0, 30.0], "cortime": 100.0, "T": 300.0,
+               "tensor": False, "scale": 2.0, "perm": [2, 0, 1], "rot": [5, 1]}
+    return [base, dimer, dimer_t, dimer2, trimer2]
 
 
 def main():
     chk = cm.Check(PID, args.tier)
     chk.rule = ("molecules, dimers, trimers; transition energies within +-250 1/cm of the RWA frequency (lines resolved inside the window), "
-                "integer dipole vectors, couplings explicit (0..+-200 1/cm) or from dipole-dipole geometry, Nt in {100..301} even and odd, "
+                "integer dipole vectors, aggregates built with mult = 1 and mult = 2 (two-exciton states present), couplings explicit (0..+-200 1/cm) or from dipole-dipole geometry, Nt in {100..301} even and odd, "
                 "dt in {1, 1.5, 2} fs, equal or different reorganisation energies, with/without a supplied standard Redfield tensor; each "
                 "case also with scaled, rotated (proper/improper), relabelled inputs. Non-trivial: every completed case; distinct by input")
     chk.assumptions = [
